@@ -136,4 +136,37 @@ theorem gcmOpenE_ok_inv {κ : Type} (E : κ → Block → Block) (k : κ) (c p :
             exact (List.take_append_drop noncePos c).symm
         · cases h
 
+/-- `open ∘ seal = id` for every block function (stated again in Props/C18.lean). -/
+theorem gcmOpen_gcmSeal {κ : Type} (E : κ → Block → Block) (k : κ) (n p : Bytes)
+    (hn : n.length = 12) (hp : p.length ≤ maxDataSize) :
+    gcmOpen E k (gcmSeal E k n p) = some p := by
+  unfold gcmOpen gcmSeal
+  rw [gcmOpenE_layout E k _ _ n (tag_length ..) hn (by rw [encBody_length]; exact hp)]
+  simp only [beq_self_eq_true, if_true, encBody, ctrXor_ctrXor]
+
+theorem gcmOpenE_gcmSeal {κ : Type} (E : κ → Block → Block) (k : κ) (n p : Bytes)
+    (hn : n.length = 12) (hp : p.length ≤ maxDataSize) :
+    gcmOpenE E k (gcmSeal E k n p) = .ok p := by
+  have := gcmOpen_gcmSeal E k n p hn hp
+  unfold gcmOpen at this
+  split at this
+  · rename_i heq; rw [heq]; simp at this; rw [this]
+  · cases this
+
+/-- whatever `Encrypt` returns, `Decrypt` with the same key bytes gives the payload back. -/
+theorem goDecrypt_of_goEncrypt (C : Cipher) (key n p c : Bytes) (hn : n.length = 12)
+    (h : goEncrypt C key n p = .ok c) : goDecrypt C key c = .ok p := by
+  unfold goEncrypt at h; unfold goDecrypt
+  cases hk : C.prep key with
+  | none => rw [hk] at h; cases h
+  | some k =>
+    rw [hk] at h; simp only at h ⊢
+    unfold gcmSealE at h
+    split at h
+    · cases h
+    · rename_i hsz
+      injection h with h
+      rw [← h]
+      exact gcmOpenE_gcmSeal C.E k n p hn (by omega)
+
 end AsherahVerif.Gcm
